@@ -535,11 +535,11 @@ type c10ChunkReader struct {
 	failAt int // -1: never; else return an error once pos reaches failAt
 }
 
-var errC10Injected = errors.New("injected read error")
+var c10ErrInjected = errors.New("injected read error")
 
 func (r *c10ChunkReader) Read(p []byte) (int, error) {
 	if r.failAt >= 0 && r.pos >= r.failAt {
-		return 0, errC10Injected
+		return 0, c10ErrInjected
 	}
 	if r.pos >= len(r.data) {
 		return 0, io.EOF
